@@ -33,8 +33,12 @@ func ConcFirst(n int, f func() string) string {
 				}
 			}()
 			ready.Add(1)
-			for ready.Load() < int32(n) {
-				// spin: all goroutines leave the barrier within a few nanoseconds of each other
+			for spins := 0; ready.Load() < int32(n); spins++ {
+				// spin: all goroutines leave the barrier within a few nanoseconds of each other;
+				// on an oversubscribed machine let the missing ones run instead of burning a core
+				if spins > 2000 {
+					runtime.Gosched()
+				}
 			}
 			answers[i] = f()
 		}(i)
